@@ -1,4 +1,4 @@
 From Coq Require Import Extraction ExtrOcamlBasic ZArith NArith.
 From PP Require Import Base.Lines Probing.ProbingDefs Tools.DedupeDefs Tools.DedupeFull.
 Extraction "model.ml" Z.of_N Z.to_N Z.of_nat Z.to_nat N.of_nat N.to_nat N.add N.mul Z.opp
-  records unrecords dedupe dedupe_par dedupe_tool dedupe_par_tool first_occ par_spec dedupe_tool_real dedupe_par_tool_real.
+  records unrecords tool_lines dedupe dedupe_par dedupe_tool dedupe_par_tool first_occ par_spec dedupe_tool_real dedupe_par_tool_real.
